@@ -35,6 +35,21 @@ std::vector<std::string> exec_prog(Rng &r, int n) {
   return v;
 }
 
+// a trailing comment that makes the physical line long (up to ~260 characters); the words include
+// things that would assemble if they were ever taken for code
+std::string long_comment(Rng &r, const std::string &line) {
+  if (line.find(';') != std::string::npos || line.find(':') != std::string::npos) return line;
+  static const char *words[] = {"x1", "<-", "arg1[4]", "*", "0x13", "ret", "nop", "spilling", "to", "mem", "mov rax, 1", "preserving", "value",
+                                "of", "x40", "into", "a", "new", "reg", "clc", "--", "padding", "add rcx, rdx"};
+  size_t target = (size_t)r.range(70, 260);
+  std::string s = line + " ;";
+  while (s.size() < target) {
+    s.push_back(' ');
+    s += words[r.below(sizeof words / sizeof words[0])];
+  }
+  return s;
+}
+
 uint64_t uid_of(Plan &p, uint64_t &ctr) { return mix64(p.seed * 1000003ULL + (uint64_t)p.run, ++ctr) & 0x7fffffffffffULL; }
 
 }  // namespace
@@ -257,6 +272,13 @@ void gen_c20(Plan &p, Rng &r, bool thorough) {
       }
       if (r.chance(1, 9) && !corpus_rejects().empty()) prog.insert(prog.begin() + (long)r.below(prog.size() + 1), ltext(r.pick(corpus_rejects())));
     }
+    if (r.chance(1, 4)) {
+      int k = 1 + (int)r.below(3);
+      for (int q = 0; q < k && !prog.empty(); q++) {
+        size_t at = r.below(prog.size());
+        prog[at] = long_comment(r, prog[at]);
+      }
+    }
     bool fin = r.chance(3, 4);
     std::string text;
     for (size_t q = 0; q < prog.size(); q++) {
@@ -330,6 +352,16 @@ void gen_c20(Plan &p, Rng &r, bool thorough) {
         a.ans = ANS_FAIL;
         a.err = EIO;
       }
+      o.env.push_back(a);
+    }
+    // stdout that stops accepting data (closed pipe, full disk behind a redirection)
+    if ((print || counting || run) && outarg != "/dev/stdout" && r.chance(1, 12)) {
+      EnvAns a;
+      a.call = K_OUT;
+      a.nth = 0;
+      a.ans = r.coin() ? ANS_FAIL : ANS_SHORT;
+      a.arg = (long)r.below(30);
+      a.err = r.coin() ? ENOSPC : EIO;
       o.env.push_back(a);
     }
     t.ops.push_back(o);
